@@ -896,6 +896,7 @@ func scanOutLevel(c *core.Ctx) []ob {
 			}
 		}
 		isEncryptor := strings.Contains(core.RecvTypeName(fd), "Encryptor")
+		isDecryptor := strings.Contains(core.RecvTypeName(fd), "Decryptor")
 		for _, d := range defs {
 			if d.obj == nil && d.text == "" {
 				continue
@@ -907,7 +908,7 @@ func scanOutLevel(c *core.Ctx) []ob {
 				if i := strings.IndexAny(root, ".[("); i > 0 {
 					root = root[:i]
 				}
-				if (paramNames[root] && isOutParamName(root)) || (isEncryptor && root == "ct") {
+				if (paramNames[root] && isOutParamName(root)) || (isEncryptor && root == "ct") || (isDecryptor && root == "pt") {
 					outElem = e
 				}
 			}
